@@ -2,7 +2,7 @@
 import io, itertools, traceback
 from fractions import Fraction as Fr
 from harness import gterm as G, geom
-from harness.fonts import build_font, gen_component_font, jsonable
+from harness.fonts import build_font, gen_component_font, jsonable, number_range_error
 
 PID = "C12"
 LEVEL_TEXT = ("PARTIAL. Proved in Coq: the process_cff decision logic with the constants read from the source -- for a CFF 1 input "
@@ -143,7 +143,7 @@ def explore(ctx):
             except NotImplementedError:
                 raised = True
             except Exception as e:
-                if "does not fit in format" in str(e):
+                if number_range_error(e):
                     # an extreme of the random outlines (with a zero advance) lies beyond what a 16-bit hhea / head field can
                     # hold: no font exists for this input (OpenType number range), whatever the CFF options
                     ctx.klass("outside_opentype_number_range_rejected")
